@@ -70,6 +70,22 @@ CHECKS = {
    text="Soundness: freely generated and then structurally damaged documents that validate() accepts (no FATAL) are run under both engines (no crash, no init failure, legal configuration after every step judged on the document's own tree) and transpiled by all three back-ends (no crash). Completeness: charts valid by construction with real lua/promela expressions must get no FATAL and no syntax-error warning. validate() itself must not crash on any of these documents.",
    note="Trusted: legality predicate on the document's own tree; generator validity. Warnings other than syntax errors ignored.",
    technique="property-based testing with structural mutation (Hypothesis); validator verdict vs execution"),
+ 'C08': dict(category='exploration', design_ref='DESIGN.md §4 C08',
+   text="Randomised schedule exploration with real threads: 1-6 producer threads call receive() concurrently with a stepping thread (non-blocking, short and long blocking step) on generated charts that raise internal events and have eventless transitions; the interleaving is perturbed at USCXML_VERIF schedule points inside BasicEventQueue::enqueue/dequeue by a generated action vector. Invariants over the observed sequence: exactly-once, per-sender FIFO, and the reference model fed the observed external order must reproduce the whole trace (macrostep boundary). Thorough tier repeats under ThreadSanitizer. Sampling of schedules, not exhaustive.",
+   note="Trusted: reference model, worker observation; the harness owns the schedule only at the hook points. Known selection findings are attributed by the exact quirk models.",
+   technique="stateful / schedule-perturbing property-based testing (Hypothesis) with real threads, ASan/UBSan, TSan in thorough"),
+ 'C09': dict(category='exploration', design_ref='DESIGN.md §4 C09',
+   text="Generated sets of delayed sends and cancels (immediate, or by an external event at a generated time around the due time) run on the real libevent timer thread; monotonic timestamps in the monitor callbacks decide exactly-once, not-early (timer granularity = coarse-clock tick), due order for well separated timers, never-after-a-clearly-earlier-cancel. Two forced schedules through USCXML_VERIF points: <cancel> executed while the timer thread sits between dequeuing and delivering that event; <send delay> executed while the timer thread is held inside a callback.",
+   note="Trusted: steady_clock timestamps; only lower bounds on time and generous margins are asserted, lateness is never an error. Failures are re-run three times in fresh processes before they count.",
+   technique="property-based testing with timestamp invariants + forced schedules at hook points (Hypothesis)"),
+ 'C10': dict(category='exploration', design_ref='DESIGN.md §4 C10',
+   text="Model-based operation sequences (step, blocking step on a second thread, receive/cancel from either thread, reset, getState, isInState, destroy + re-create) on generated charts, from the pristine state on, checked against the life-cycle automaton (INSTANTIATED, INITIALIZED, ..., CANCELLED at most once and only after cancel, FINISHED absorbing), the completion bracket (every active state's onexit once, innermost first), bounded termination after cancel, release of a blocked step, destruction time; metamorphic: continuation after reset equals a fresh interpreter. Create/destroy churn with the timer thread parked at its run-flag test.",
+   note="Trusted: the automaton (from InterpreterState.h, Interpreter.h, test-lifecycle.cpp). 'Always terminates' is bounded liveness with a watchdog. Sequences with a blocked step are excluded from the reset-equals-fresh comparison (timing dependent).",
+   technique="stateful model-based property-based testing (Hypothesis) with a second thread and forced teardown schedules"),
+ 'C11': dict(category='exploration', design_ref='DESIGN.md §4 C11',
+   text="A parametric family of parent/child chart pairs (child finishes early / late / never, sends to #_parent, echoes #_<invokeid> events, holds a delayed send; parent leaves the invoking state at a generated time by sibling transition, self-transition or finishing, optionally re-invokes; autoforward and finalize per invoke; one or two invokes) run with real threads; invariants over the merged, session-tagged, totally ordered monitor trace decide invoke/uninvoke exactly-once, done.invoke iff finished on its own, silence after afterUninvoking, routing, order, at-most/exactly-once, finalize-before-match. Forced schedules: child parked between FINISHED and the _isActive test while the parent leaves; parent parked on entry of USCXMLInvoker::stop.",
+   note="Trusted: worker observation (monitor copied to invokers, records serialised under one lock). Only USCXMLInvoker; the chart family is parametric, not arbitrary chart pairs. 'Must arrive' clauses use a 60 ms margin, all others trace order.",
+   technique="property-based testing over a parametric scenario family with timestamp/trace-order invariants and forced schedules (Hypothesis)"),
 }
 NOT_YET = "check not implemented yet in this session (see DESIGN.md §11 for the plan)"
 
